@@ -19,7 +19,7 @@ theorem nastyPTR_forced (d a : Str)
     · intro j h1 h2
       have : "\" is set up for ".toList.length = 16 := by decide
       omega
-    · exact no_occ_append _ a _ ',' _ rfl (by decide)
+    · exact no_occ_appendD _ a _ ',' _ rfl (by decide)
         (no_occ_of_allIn clsNonSpace ' ' _ a ha' (by decide) (by decide))
         (lacks_spec _ "\" is set up for " (by decide))
 
